@@ -164,7 +164,7 @@ def load_harness_file(path):
                             if narrowed and isq:
                                 allp = kv.get("prop", "").split(",")
                                 qp = [p_ for p_ in allp if not any(n == p_ and v not in vs for n, vs in narrowed)]
-                                extra += " qprops=" + ",".join(qp)
+                                extra += " qprops=" + (",".join(qp) if qp else "-")
                             t = re.sub(r"(// @h [^\n]*)", lambda m: m.group(1) + extra, t, count=1)
                         add_block(t)
             else:
@@ -688,7 +688,7 @@ def run_harness(spec, symtabs, workdir, want_witness=False):
             res.wall_s = time.time() - t0
 
 
-def run_all(specs, symtabs, workdir, jobs=None, mem_total=52):
+def run_all(specs, symtabs, workdir, jobs=None, mem_total=int(os.environ.get("VERIF_MEM_BUDGET", "110"))):
     """Run harnesses in parallel under a memory budget (sum of declared per-harness limits)."""
     jobs = jobs or int(os.environ.get("VERIF_JOBS", "14"))
     lock = threading.Condition()
